@@ -63,6 +63,9 @@ func (fr *Frame) call(st *State, call ssa.CallInstruction) []Term {
 		for _, p := range fn.Params {
 			ats = append(ats, p.Type())
 		}
+		if len(ats) == 0 {
+			ats = paramTypes(nil, fn.Signature)
+		}
 		k := key
 		if !isModuleFunc(fn) {
 			k = extKey(fn)
